@@ -75,21 +75,20 @@ def r11(cx):
     shp = [r for r in own_nodes(f) if isinstance(r, ast.Raise) and any(_shape_neq(c) for c in fl.conds_at(r))]
     cx.check(len(shp) == 1 and fl.ordered_before(shp[0], w), shp[0] if shp else f, construct="shape of the new value != self._shape -> raise, before the write", detail="equal length but different shape is refused",
              bad_detail="a value of equal length but different shape is written over the header (no shape comparison precedes the write)", sub="update-shape")
-    # ---- Array._inspect_args: shape validation precedes the returned plan
-    f = m.func("array::Array._inspect_args")
-    fl = Flow(f)
-    rs = [r for r in own_nodes(f) if isinstance(r, ast.Raise)]
-    st = [r for r in rs if any(c.text() == "shape != cls._shape" for c in fl.conds_at(r))]
-    cx.check(len(st) == 1, st[0] if st else f, construct="static shape: shape(value) != cls._shape -> raise", detail="a value of another shape is refused at planning time (before allocation)", bad_detail="static-shape arrays accept values of another shape", sub="shape")
-    dy = [r for r in rs if any(c.text() == "shape[idim] != ndim" for c in fl.conds_at(r))]
-    ok = len(dy) == 1 and any(c.text() == "not (ndim is None)" for c in fl.conds_at(dy[0])) and any(norm(l.iter) == "enumerate(cls._shape)" for l in fl.loops_at(dy[0]))
-    cx.check(ok, dy[0] if dy else f, construct="dynamic shape: every fixed axis must match -> raise", detail="fixed axes of a partly dynamic shape are validated", bad_detail="fixed axes of dynamic-shape arrays are not validated for every axis", sub="shape")
-    many = [r for r in rs if any("len(args) > 1" in c.text() for c in fl.conds_at(r))]
-    cx.check(len(many) == 1, many[0] if many else f, construct="too many arguments -> raise", detail="extra constructor arguments are refused", bad_detail="extra arguments are accepted", sub="shape")
+    # ---- Array._inspect_args: shape validation is decided by evaluation (rule R13: every array descriptor x array-like
+    # values of another shape / rank / too many arguments must be refused before anything is written)
     gs = m.func("array::get_shape_from_array")
     rr = [r for r in own_nodes(gs) if isinstance(r, ast.Raise)]
     fl2 = Flow(gs)
-    cx.check(len(rr) == 1 and any(c.text() == "shapei != shape0" for c in fl2.conds_at(rr[0])), rr[0] if rr else gs, construct="ragged nested sequences -> raise", detail="inconsistent sub-shapes are refused", bad_detail="ragged values are accepted", sub="shape")
+    cx.recog(len(rr) >= 1, gs, "get_shape_from_array: refusal of ragged nested sequences")
+    ragged = [r for r in rr if any(isinstance(c.test, ast.Compare) and isinstance(c.test.ops[0], (ast.NotEq, ast.Eq)) and "shape" in norm(c.test) for c in fl2.conds_at(r))]
+    cx.recog(len(ragged) >= 1, gs, "get_shape_from_array: comparison of the sub-shapes of a nested sequence")
+    cx.ok(ragged[0], construct="ragged nested sequences -> raise", detail="inconsistent sub-shapes are refused", sub="shape")
+
+
+@rule("R11u", ["C11"], "union membership (diagnostic): lookups raise after exhausting _reftypes, the writer refuses non-members before writing")
+def r11u(cx):
+    m = cx.m
     # ---- union membership
     mu = m.cls("ref::MetaUnionRef")
     ms = m.methods(mu)
